@@ -1,7 +1,7 @@
 CONSTANTS
-  Family = "redir"
+  Family = "pfc"
   Defects = {}
-  Big = TRUE
+  Big = FALSE
 SPECIFICATION Spec
 INVARIANTS HdrImplIsSem HdrLevelOrder HdrVarResolved PathImplIsSem PrefixWins PathRuleSwapsWholePath HostImplIsSem RedirImplIsSem PfcImplIsSem TmoImplIsSem TryBelowGlobal EmitCase
 CHECK_DEADLOCK FALSE
